@@ -141,6 +141,20 @@ def prims():
             defjvp(foo, lambda g, ans, x: anp.sum(g * 2.0 * x))
         return foo
 
+    def column_quad(defect):
+        # argument of shape (2, 1): a reverse rule that forgets keepdims / the reshape back returns the right NUMBERS in
+        # shape (2,) - same element count, another vector space; the checker must reject it (and accept the correct rule)
+        @primitive
+        def foo(x):
+            return x * x
+
+        if defect == "flatshape":
+            defvjp(foo, lambda ans, x: lambda g: anp.reshape(g * 2.0 * x, (2,)))
+        else:
+            defvjp(foo, lambda ans, x: lambda g: g * 2.0 * x)
+        defjvp(foo, lambda g, ans, x: g * 2.0 * x)
+        return foo
+
     def complex_quad(defect):
         @primitive
         def foo(z):
@@ -218,6 +232,7 @@ def prims():
         return lambda a: foo(a[0]["z"], a[1]) * a[0]["b"]
 
     return [
+        ("column-shaped (2,1) argument", column_quad, R(2, 1), ["flatshape"], False),
         ("dict with a complex leaf nested in a tuple", nested_dict_complex, ({"z": enga.CSC, "b": SC}, SC), ["sign", "conj"], False),
         ("reverse rule through a helper primitive", helper_split, SC, [], False),
         ("dict-valued output, tangent keys in another order", dict_out, R(2), ["swapped"], False),
@@ -241,6 +256,8 @@ def items(tier):
         for modes in (["rev"], ["fwd"]):
             out.append((lab, "none", tuple(modes), 1))
             for d in defects:
+                if d == "flatshape" and modes == ["fwd"]:
+                    continue  # that defect lives in the reverse rule only
                 out.append((lab, d, tuple(modes), 1))
         if scalar or tier == "thorough":
             out.append((lab, "none", ("rev",), 2))
